@@ -33,6 +33,23 @@ class BodyBase(BaseException):
     pass
 
 
+class BodyFalsy(BodyErr):
+    """an exception object that is falsy (an aggregate error with zero items)"""
+
+    def __len__(self) -> int:
+        return 0
+
+
+class BodyBadStr(BodyErr):
+    """an exception that cannot be rendered (its __str__ raises)"""
+
+    def __str__(self) -> str:
+        raise TypeError("cannot render")
+
+    def __repr__(self) -> str:
+        return "BodyBadStr()"
+
+
 class SpawnErr(Exception):
     pass
 
@@ -367,6 +384,12 @@ class Run:
                 raise self.raised[bid]
             if ending == "raise_base":
                 self.raised[bid] = BodyBase(f"b{bid}")
+                raise self.raised[bid]
+            if ending == "raise_falsy":
+                self.raised[bid] = BodyFalsy(f"b{bid}")
+                raise self.raised[bid]
+            if ending == "raise_badstr":
+                self.raised[bid] = BodyBadStr(f"b{bid}")
                 raise self.raised[bid]
         except BaseException as exc:
             self.body_exc[bid] = exc
